@@ -271,6 +271,8 @@ package utreexo
 //@ func (hnp *hashAndPos) Append(position uint64, hash Hash)
 //@   ensures len(hnp.positions) == old(len(hnp.positions)) + 1 && len(hnp.hashes) == old(len(hnp.hashes)) + 1
 //@   ensures hnp.positions[old(len(hnp.positions))] == position && hnp.hashes[old(len(hnp.hashes))] == hash
+//@   ensures forall k in 0..old(len(hnp.positions)): hnp.positions[k] == old(hnp.positions)[k]
+//@   ensures forall k in 0..old(len(hnp.hashes)): hnp.hashes[k] == old(hnp.hashes)[k]
 
 //@ func toHashAndPos(origTargets []uint64, origHashes []Hash) (res hashAndPos)
 //@   ensures len(res.positions) == len(origTargets) && len(res.hashes) == len(origHashes)
@@ -283,6 +285,9 @@ package utreexo
 //@   loop 1: invariant len(c.positions) == maxa + maxb && len(c.hashes) == maxa + maxb
 //@   loop 1: decreases maxa + maxb - j
 //@   loop 1: invariant j <= idxa + idxb
+//   membership: every element of the result is an element of a or of b (with its hash)
+//@   thorough ensures forall k in 0..len(c.positions): (exists q in 0..len(a.positions): c.positions[k] == a.positions[q] && c.hashes[k] == a.hashes[q]) || (exists q in 0..len(b.positions): c.positions[k] == b.positions[q] && c.hashes[k] == b.hashes[q])
+//@   thorough loop 1: invariant forall k in 0..j: (exists q in 0..idxa: c.positions[k] == a.positions[q] && c.hashes[k] == a.hashes[q]) || (exists q in 0..idxb: c.positions[k] == b.positions[q] && c.hashes[k] == b.hashes[q])
 //   sortedness (thorough tier: the two copy-the-remainder exits are decided by cvc5 only, in about 18 s each)
 //@   thorough ensures sortedStrict(a.positions) && sortedStrict(b.positions) ==> sortedStrict(c.positions)
 //@   thorough loop 1: paths separate
@@ -531,6 +536,17 @@ package utreexo
 //@   ensures len(res.positions) == len(res.hashes)
 //@   loop 1: invariant 0 <= i && i <= len(a.positions) && 0 <= bIdx && bIdx <= len(b) && len(c.positions) == len(c.hashes)
 //@   loop 1: decreases len(b) - bIdx, len(a.positions) - i
+//@   ensures forall k in 0..len(res.positions): exists q in 0..len(a.positions): res.positions[k] == a.positions[q] && res.hashes[k] == a.hashes[q]
+//@   ensures forall k in 0..len(res.positions): exists q in 0..len(b): res.positions[k] == b[q]
+//@   loop 1: invariant forall k in 0..len(c.positions): exists q in 0..i: c.positions[k] == a.positions[q] && c.hashes[k] == a.hashes[q]
+//@   loop 1: invariant forall k in 0..len(c.positions): exists q in 0..bIdx: c.positions[k] == b[q]
+//@   thorough ensures sortedStrict(a.positions) ==> sortedStrict(res.positions)
+//@   thorough ensures sortedStrict(a.positions) && sortedStrict(b) ==> (forall p in 0..len(a.positions): forall q in 0..len(b): a.positions[p] == b[q] ==> (exists k in 0..len(res.positions): res.positions[k] == b[q]))
+//@   thorough loop 1: invariant sortedStrict(a.positions) && sortedStrict(b) ==> (forall p in 0..i: forall q in 0..bIdx: a.positions[p] == b[q] ==> (exists k in 0..len(c.positions): c.positions[k] == b[q]))
+//@   thorough loop 1: invariant sortedStrict(a.positions) && sortedStrict(b) ==> (forall p in 0..i: forall q in bIdx..len(b): a.positions[p] < b[q])
+//@   thorough loop 1: invariant sortedStrict(a.positions) && sortedStrict(b) ==> (forall q in 0..bIdx: forall p in i..len(a.positions): b[q] < a.positions[p])
+//@   thorough loop 1: invariant sortedStrict(a.positions) ==> (forall x in 0..len(c.positions): forall y in 0..len(c.positions): x < y ==> c.positions[x] < c.positions[y])
+//@   thorough loop 1: invariant sortedStrict(a.positions) ==> (forall x in 0..len(c.positions): forall y in i..len(a.positions): c.positions[x] < a.positions[y])
 
 //@ func insertInOrder(dels []uint64, el uint64) (res []uint64)
 //@   modifies dels
@@ -554,6 +570,7 @@ package utreexo
 //@ func (hnp *hashAndPos) Delete(i int)
 //@   requires 0 <= i && i < len(hnp.positions) && len(hnp.positions) == len(hnp.hashes)
 //@   ensures len(hnp.positions) == old(len(hnp.positions)) - 1 && len(hnp.hashes) == old(len(hnp.hashes)) - 1
+//@   ensures forall k in 0..i: hnp.positions[k] == old(hnp.positions)[k] && hnp.hashes[k] == old(hnp.hashes)[k]
 
 // C13, writing side: under the io.Writer contract (n < len(p) ==> err != nil) a successful write reports
 // exactly the bytes produced (ghost ioBytes).
